@@ -35,6 +35,7 @@ def run(tier, argv):
     for k in ("evaluations", "distinct_nontrivial", "traces_validated_against_impl"):
         rep.cov[k] += sx["evaluations"]
     bad += semcommon.random_tier(work, rep, hbin, False, (500 if quick else 20000))
+    bad += semcommon.diff_tier(work, rep, hbin, PROP, 30000 if quick else 1500000)
     for b in bad[:40]:
         rep.violation(b, "%s | doc %s | want %s got %s" % (b["schema"].replace("\n", "\\n")[:200], b.get("doc"), b["want"], json.dumps(b["got"])[:200]))
     rep.violations = len(bad)
